@@ -21,6 +21,14 @@ func (e *Engine) load(st *State, p VPtr) Value {
 	if o.Kind != KCell {
 		unsupported("load from object kind %d", o.Kind)
 	}
+	defer func() {
+		if r := recover(); r != nil {
+			if _, isU := r.(Unsupported); isU {
+				panic(r)
+			}
+			panic(fmt.Sprintf("load %v path %v from object %d (%s, typ %s) value %s: %v", p.Obj, p.Path, p.Obj, o.Site, o.Typ, describe(o.Val), r))
+		}
+	}()
 	return getPath(o.Val, p.Path)
 }
 
@@ -258,6 +266,19 @@ func (pc *pathCtx) unop(it *item, x *ssa.UnOp) bool {
 		p := v.(VPtr)
 		if !pc.panicIf(it, p.Nil, "nil-deref", x) {
 			return false
+		}
+		if debugCheck {
+			func() {
+				defer func() {
+					if r := recover(); r != nil {
+						if _, isU := r.(Unsupported); isU {
+							panic(r)
+						}
+						panic(fmt.Sprintf("at %s: %s = *%s (operand defined by %T %v): %v\npc=%v", siteOf(x), x.Name(), x.X.Name(), x.X, x.X, r, it.st.pc[len(it.st.pc)-3:]))
+					}
+				}()
+				pc.e.load(it.st, p)
+			}()
 		}
 		it.fr.locals[x] = pc.e.load(it.st, p)
 		return true
